@@ -61,6 +61,26 @@ Theorem C13_udp_former_witness : forall k,
 Proof. exact udp_former_witness. Qed.
 Print Assumptions C13_udp_former_witness.
 
+(* what the small limits mean.  MaxRequestLength = 0 (set before or after Bind: the handlers read
+   the field on every request): every non-empty request is refused on every transport, only the
+   empty one passes; a negative limit refuses everything, the empty request included. *)
+Theorem C13_limit_zero_refuses_nonempty : forall tr k decl sent n,
+  framed tr k decl sent = Some n -> n > 0 ->
+  rejected (admission pinned_sites tr 0 k decl sent) = true.
+Proof. exact limit_zero_refuses_nonempty. Qed.
+Print Assumptions C13_limit_zero_refuses_nonempty.
+
+Theorem C13_limit_zero_passes_empty : forall tr k decl,
+  truthful tr k decl 0 = true -> admission pinned_sites tr 0 k decl 0 = Process 0.
+Proof. exact limit_zero_passes_empty. Qed.
+Print Assumptions C13_limit_zero_passes_empty.
+
+Theorem C13_limit_negative_refuses_all : forall tr max k decl sent n,
+  max < 0 -> framed tr k decl sent = Some n -> 0 <= n ->
+  rejected (admission pinned_sites tr max k decl sent) = true.
+Proof. exact limit_negative_refuses_all. Qed.
+Print Assumptions C13_limit_negative_refuses_all.
+
 (* refused means: nothing runs *)
 Theorem C13_refused_runs_nothing : forall sites tr max k decl sent valid,
   rejected (admission sites tr max k decl sent) = true ->
@@ -254,6 +274,15 @@ Example sizes_around_the_limit_tcp :
   map (fun n => admission pinned_sites Tcp 100 flagged (Some n) n) [99; 100; 101; 1000] =
   [Process 99; Process 100; RejectInBand; RejectInBand].
 Proof. split; reflexivity. Qed.
+
+(* limit 0 and a 2^27-aligned announcement: 134217752 = 2^27 + 24 bytes announced against a limit
+   of 64 is refused whatever arrives (a reader masking the length to 27 bits would see 24) *)
+Example small_limits_and_huge_announcements :
+  map (fun n => admission pinned_sites Mock 0 plain None n) [0; 1; 10] = [Process 0; RejectError; RejectError] /\
+  map (fun n => admission pinned_sites Udp (-1) plain (Some n) n) [0; 1] = [RejectInBand; RejectInBand] /\
+  admission pinned_sites Tcp 64 plain (Some 134217752) 24 = RejectInBand /\
+  recv_frames (Server 64) (sock_make_header 134217752 7 ++ repeat "x"%byte 24) = ([], EndTooLarge 7).
+Proof. vm_compute. repeat split. Qed.
 
 (* the four declarations, net/http, limit 10, POST and GET alike *)
 Example declarations_nethttp : forall k,
